@@ -7,3 +7,36 @@ try:
     REPLAYERS.update(getattr(_ring, "REPLAYERS", {}))
 except ImportError:
     _ring = None
+
+import numpy, z3
+from pyvc import sym, lemma, loopcut
+from pyvc.lemma import real
+from pyvc.sym import _t, cur
+
+GE = "pybrops/breed/prot/pt/G_E_Phenotyping.py"
+
+
+@unit(P, "lemma[set_h2 / set_H2 fix var_err so that var/(var+var_err) equals the target]", "L",
+      targets=[GE + ":G_E_Phenotyping.set_h2", GE + ":G_E_Phenotyping.set_H2"])
+def u_l_h2(ctx):
+    """the assignment is executed from the real methods (extracted) on symbolic reals; the genomic model's variance
+    routine is a stub returning an arbitrary positive variance"""
+    for meth, vname in (("set_h2", "var_A"), ("set_H2", "var_G")):
+        f = loopcut.Extracted(GE + ":G_E_Phenotyping.%s" % meth, overrides={"check_is_PhasedGenotypeMatrix": lambda *a: None})
+        var = real("var")
+        h = real("h")
+
+        class GP:
+            def var_A(self, pg): return var if vname == "var_A" else sym.Unsupported
+            def var_G(self, pg): return var if vname == "var_G" else sym.Unsupported
+
+        class Self:
+            gpmod = GP()
+            var_err = None
+        me = Self()
+        f(me, h, object())
+        ve = _t(me.var_err)
+        pre = [var.t > 0, h.t > 0, h.t <= 1]
+        ctx.prove(meth + ": var/(var+var_err) == target heritability", pre, var.t / (var.t + ve) == h.t)
+        ctx.prove(meth + ": var_err >= 0, and == 0 exactly when the target is 1", pre, z3.And(ve >= 0, (ve == 0) == (h.t == 1)))
+        ctx.prove(meth + ": canary var_err == var", pre, ve == var.t, expect="fail", timeout_ms=3000)
